@@ -180,6 +180,15 @@ func (fr *Frame) trustedCall(st *State, fn *ssa.Function, args []Val, resT types
 		b := g.declare("trB", g.idxSort())
 		g.assume(and(g.idxLe(g.idxConst(0), a), g.idxLe(a, b), g.idxLe(b, "(str_len "+s+")")))
 		return Val{T: types.Typ[types.String], S: g.define("trim", "Str", "(mk_str (str_arr "+s+") "+g.idxAdd("(str_off "+s+")", a)+" "+g.idxSub(b, a)+")")}, true
+	case "strings.Split", "strings.SplitN", "strings.Fields":
+		g.note("trusted: " + name + " returns a fresh slice of strings (at least one element for Split with a non-empty separator)")
+		ref := g.allocRef(st)
+		r := g.declare("split", "Slice")
+		g.assume(and("(= (sl_ref "+r+") "+ref+")", "(= (sl_off "+r+") "+g.idxConst(0)+")", g.typeRange(r, resT)))
+		if name != "strings.Fields" {
+			g.assume(g.idxLe(g.idxConst(1), "(sl_len "+r+")"))
+		}
+		return Val{T: resT, S: r}, true
 	case "regexp.(*Regexp).MatchString":
 		g.note("trusted: (*regexp.Regexp).MatchString is a deterministic predicate of (regexp, string) (uninterpreted re_match)")
 		g.needReMatch = true
